@@ -88,9 +88,67 @@ func spread(tokensBy map[int]ring.Tokens, n int) float64 {
 	return 1 - mn/mx
 }
 
+// spreadAllPrefixes returns the ownership spread of instances 0..n for every n in 0..maxN. It starts from the
+// full token circle and removes instance maxN, maxN-1, ... (a removed token's range falls to its successor),
+// so every prefix costs O(n) instead of a sort of all its tokens.
+func spreadAllPrefixes(tokensBy map[int]ring.Tokens, maxN int) []float64 {
+	type to struct {
+		tok uint32
+		own int
+	}
+	all := make([]to, 0, (maxN+1)*512)
+	for i := 0; i <= maxN; i++ {
+		for _, t := range tokensBy[i] {
+			all = append(all, to{t, i})
+		}
+	}
+	sort.Slice(all, func(i, j int) bool { return all[i].tok < all[j].tok })
+	m := len(all)
+	prev, next := make([]int, m), make([]int, m)
+	rng := make([]uint64, m) // keys owned through this token
+	own := make([]float64, maxN+1)
+	byOwner := make([][]int, maxN+1)
+	for i := range all {
+		prev[i], next[i] = (i+m-1)%m, (i+1)%m
+		rng[i] = uint64(all[i].tok - all[prev[i]].tok)
+		if m == 1 {
+			rng[i] = 1 << 32
+		}
+		own[all[i].own] += float64(rng[i])
+		byOwner[all[i].own] = append(byOwner[all[i].own], i)
+	}
+	out := make([]float64, maxN+1)
+	left := m
+	for n := maxN; n >= 0; n-- {
+		mn, mx := own[0], own[0]
+		for _, o := range own[:n+1] {
+			if o < mn {
+				mn = o
+			}
+			if o > mx {
+				mx = o
+			}
+		}
+		out[n] = 1 - mn/mx
+		if n == 0 {
+			break
+		}
+		for _, i := range byOwner[n] {
+			sc := next[i]
+			rng[sc] += rng[i]
+			own[all[sc].own] += float64(rng[i])
+			own[n] -= float64(rng[i])
+			next[prev[i]], prev[sc] = sc, prev[i]
+			left--
+		}
+	}
+	_ = left
+	return out
+}
+
 func TestC16(t *testing.T) {
 	run := vt.NewRun("C16", "exploration")
-	run.SetRule("case = one GenerateTokens call (random generator: seeded and unseeded, hostile taken sets made of the generator's own next candidates, birthday-sized requests; spread-minimising generator: (instance index, zone index, requested count, taken set)) or one (zone, prefix) ownership-spread evaluation or one AddPartition sequence; checked: sorted, duplicate-free, disjoint from taken, full count when enough free tokens, token mod 8 = zone, tokens of (instance,zone) pairs pairwise disjoint, generator for n agrees with generator for k<n on k's tokens, spread < 1% for every prefix, partitions' tokens disjoint and equal to the generator's. non-trivial = taken set non-empty or instance index > 0; distinct by call parameters.")
+	run.SetRule("case = one GenerateTokens call (random generator: seeded and unseeded, hostile taken sets made of the generator's own next candidates, birthday-sized requests; spread-minimising generator: (instance index, zone index, requested count, taken set)) or one (zone, prefix) ownership-spread evaluation or one AddPartition sequence; checked: sorted, duplicate-free, disjoint from taken, full count when enough free tokens, token mod 8 = zone, tokens of (instance,zone) pairs pairwise disjoint, generator for n agrees with generator for k<n on k's tokens, spread < 1% for every prefix 0..n with n in 1..2000 of each of the 8 zones, partitions' tokens disjoint and equal to the generator's. non-trivial = taken set non-empty or instance index > 0; distinct by call parameters.")
 
 	// ---- random generator -------------------------------------------------
 	run.ForEach("random", vt.N(4000, 100000), func(c vt.CaseID, rng *rand.Rand, s *vt.Slot) {
@@ -174,7 +232,7 @@ func TestC16(t *testing.T) {
 	})
 
 	// ---- spread-minimising generator ---------------------------------------
-	maxN := vt.N(300, 2000)
+	maxN := 2000 // the statement's range of instance indexes, in both tiers
 	tables := make([]map[int]ring.Tokens, 8)
 	run.ForEach("spread-tables", 8, func(c vt.CaseID, rng *rand.Rand, s *vt.Slot) {
 		z := int(c.Idx)
@@ -298,35 +356,44 @@ func TestC16(t *testing.T) {
 			run.Sample(map[string]any{"generator": "spread-minimizing", "instance": e.k, "zone": e.z, "first_tokens": want[:5]})
 		}
 	})
-	// spread per prefix
-	var prefixes []kz
-	for z := 0; z < 8; z++ {
-		for n := 1; n <= maxN; n++ {
-			if n <= 64 || (z < 2 && n <= 300) || n%97 == int(vt.Seed()%97+97)%97 || n == maxN {
-				prefixes = append(prefixes, kz{n, z})
+	// spread of every prefix 0..n, n in 1..maxN, of every zone (incremental), cross-checked against the direct
+	// computation on a few prefixes per zone
+	nPrefixes := 0
+	var nPrefMu sync.Mutex
+	run.ForEach("spread-prefix", 8, func(c vt.CaseID, rng *rand.Rand, s *vt.Slot) {
+		z := int(c.Idx)
+		if tables[z] == nil {
+			g := ring.NewSpreadMinimizingTokenGeneratorForInstanceAndZoneID("ing-", maxN, z, false)
+			tables[z], _ = ring.VerifSpreadMinimizingTokensByInstance(g)
+		}
+		sps := spreadAllPrefixes(tables[z], maxN)
+		for _, k := range []int{1, 2, 3, 17, 64, 300, 1 + rng.IntN(maxN), maxN} {
+			if d := spread(tables[z], k); d-sps[k] > 1e-9 || sps[k]-d > 1e-9 {
+				run.Inconclusive(fmt.Sprintf("harness: incremental spread %.9f differs from the direct computation %.9f at zone %d prefix %d", sps[k], d, z, k))
+				return
 			}
 		}
-	}
-	run.ForEach("spread-prefix", len(prefixes), func(c vt.CaseID, rng *rand.Rand, s *vt.Slot) {
-		e := prefixes[c.Idx]
-		if tables[e.z] == nil {
-			g := ring.NewSpreadMinimizingTokenGeneratorForInstanceAndZoneID("ing-", maxN, e.z, false)
-			tables[e.z], _ = ring.VerifSpreadMinimizingTokensByInstance(g)
+		reported := 0
+		for k := 1; k <= maxN; k++ {
+			sp := sps[k]
+			run.EvalH(vt.Mix(uint64(k), uint64(z), 18), true)
+			worstMu.Lock()
+			if sp > worst[z] {
+				worst[z] = sp
+			}
+			worstMu.Unlock()
+			if sp >= 0.01 && reported < 3 {
+				reported++
+				run.Violation(c, "spread/ownership-spread-over-1-percent", fmt.Sprintf("zone %d, instances 0..%d: 1-min/max ownership = %.4f%%", z, k, sp*100), map[string]any{"zone": z, "prefix": k, "spread": sp})
+			}
 		}
-		sp := spread(tables[e.z], e.k)
-		run.EvalH(vt.Mix(uint64(e.k), uint64(e.z), 18), true)
-		worstMu.Lock()
-		if sp > worst[e.z] {
-			worst[e.z] = sp
-		}
-		worstMu.Unlock()
-		if sp >= 0.01 {
-			run.Violation(c, "spread/ownership-spread-over-1-percent", fmt.Sprintf("zone %d, instances 0..%d: 1-min/max ownership = %.4f%%", e.z, e.k, sp*100), map[string]any{"zone": e.z, "prefix": e.k, "spread": sp})
-		}
+		nPrefMu.Lock()
+		nPrefixes += maxN
+		nPrefMu.Unlock()
 	})
 	if vt.GenEnabled("spread-prefix") {
 		run.SetExtra("worst_spread_by_zone", worst)
-		run.SetExtra("prefixes_evaluated", len(prefixes))
+		run.SetExtra("prefixes_evaluated", nPrefixes)
 	}
 
 	// ---- partition rings ---------------------------------------------------
